@@ -79,6 +79,10 @@ func checkC11(r *core.Run) {
 	var evals, nontriv int64
 	eval := func(s string) {
 		atomic.AddInt64(&evals, 1)
+		if p, msg := core.Try(func() { safehtml.URLSanitized(s) }); p {
+			r.Witness("panic", "", s, fmt.Sprintf("URLSanitized(%s) panicked: %s", core.Q(s), msg), map[string]string{"Input": s})
+			return
+		}
 		if strings.ContainsAny(s, ":&") {
 			atomic.AddInt64(&nontriv, 1)
 		}
@@ -203,6 +207,22 @@ func checkC11(r *core.Run) {
 	atomic.AddInt64(&evals, 0)
 	r.Set("layer_bytes", fmt.Sprintf("all byte strings length<=%d alone and in 3 javascript contexts: %d", bl, st2.States*4))
 
+	nl := enum.Long([]string{"a", "x", "\u00e9", "\u212a", "\u0130", "\xff", "%6a", "."}, []string{"javascript:alert(1)", ":x", "&colon;x", "&#58;x", "JAVASCRIPT:", "/ok", "?a:b", "script:x", "\tjavascript:x", "a:b"}, 300, func(s string) { eval(s) })
+	// stripped characters (leading C0/space, TAB/LF/CR anywhere) in every quantity, before, inside and after the scheme
+	for _, ws := range []string{" ", "\t", "\n", "\r", "\x00", "\x1f", "\r\n"} {
+		pad := ""
+		for k := 0; k <= 300; k++ {
+			for _, tail := range []string{":alert(1)", "&colon;alert(1)", "&#58;x", "&#x3A;x"} {
+				eval(pad + "javascript" + tail)
+				eval("java" + pad + "script" + tail)
+				eval("javascript" + pad + tail)
+				eval(pad + "JaVaScRiPt" + tail + pad)
+				nl += 4
+			}
+			pad += ws
+		}
+	}
+	r.Set("layer_long", fmt.Sprintf("8 padding units x 10 cores x every padding length 0..300 x 3 placements, plus 7 stripped characters in every quantity 0..300 at 3 places of javascript: in 4 spellings: %d", nl))
 	r.Set("evaluations", evals)
 	r.Set("distinct_nontrivial", nontriv)
 	r.Set("rule", "exhaustive enumeration per layer (layer_* keys); non-trivial = the input contains ':' or '&', i.e. the accept/reject decision depends on scheme analysis rather than on the trivial no-special-character path")
